@@ -12,8 +12,12 @@
                            encodings of the frames of [sent s], in order;
      C04_step_mono         [sent], [wire], [trace], [handled] only grow.
 
+   (2a) C04_contact_first / C04_contact_first_map   exactly one contact
+                           header, and it is the first frame;
+   (2b) C04_sess_term_once at most one SESS_TERM; [in_term] iff one was sent.
+
    NOT YET PROVED (in progress, statements as in the work order):
-     contact_first (2a), sess_term_once (2b), no_start_after_term (2c; needs
+     no_start_after_term (2c; needs
      the hypothesis that the negotiated segment size is positive -- with a
      peer segment MRU of 0 the model, like the code, repeats START segments
      with no data, also after SESS_TERM), sess_init_active / sess_init_passive
@@ -35,6 +39,27 @@ Theorem C04_step_mono : forall (s : ep) (o : op),
   /\ (exists t, trace (step s o) = trace s ++ t) /\ (exists h, handled (step s o) = handled s ++ h).
 Proof. exact step_mono. Qed.
 Print Assumptions C04_step_mono.
+
+Theorem C04_contact_first : forall (c : cfg) (ops : list op),
+  let s := run c ops in
+  sent s = [] \/ exists rest, sent s = FContact (mkContact MAGIC 4 0) :: rest
+                               /\ Forall (fun f => exists m, f = FMsg m) rest.
+Proof. exact contact_first. Qed.
+Print Assumptions C04_contact_first.
+
+(* The form consumed by the channel lemma of C07. *)
+Theorem C04_contact_first_map : forall (c : cfg) (ops : list op),
+  let s := run c ops in
+  sent s = [] \/ exists h ms, sent s = FContact h :: map FMsg ms.
+Proof. exact contact_first_map. Qed.
+Print Assumptions C04_contact_first_map.
+
+Theorem C04_sess_term_once : forall (c : cfg) (ops : list op),
+  let s := run c ops in
+  (length (filter (fun f => match f with FMsg (MSessTerm _ _) => true | _ => false end) (sent s)) <= 1)%nat
+  /\ (in_term s = true <-> exists fl r, In (FMsg (MSessTerm fl r)) (sent s)).
+Proof. exact sess_term_once. Qed.
+Print Assumptions C04_sess_term_once.
 
 (* Non-vacuity: a run in which frames are sent and octets reach the wire. *)
 Example C04_example_run :
